@@ -101,6 +101,14 @@ def gen_ops(ctx):
     for i, (tag, b, native, dims) in enumerate(seeds):
         if not th and dims != (3, 2): continue
         for (m, x) in G.field_mutations(b, G.TGA_FIELDS, G.TGA_EXTRA): plan.add("tga", tag + ":" + m, x, native, dims, n_variants=1 if not th else 2)
+    # huge declared dimensions with a small requested region (the destination allocation does not stop these)
+    for (w, h) in ((65535, 65535), (46341, 46341), (30000, 30000), (65535, 2), (2, 65535), (16384, 2), (16385, 2)):
+        for bpp in (24, 32):
+            for rle in (False, True):
+                b = G.tga_file(w, h, bpp, rle=rle, data=bytes([0x83, 1, 2, 3, 4][:1 + bpp // 8]))
+                for (e, d) in (("image", "file"), ("conv", "stream"), ("view", "name")):
+                    dst = "rgba8" if (e == "conv" or bpp == 32) else "rgb8"
+                    plan.ops.append(mkop("tga", e, d, dst, b, (0, 0, 1, 1), (1, 1) if e == "view" else (0, 0))); plan.tags.append("tga/huge:%dx%d" % (w, h))
     for (tag, b, native, dims) in seeds:
         for (m, x) in G.tail_corruptions(b, min(18, len(b) - 1), r, 3 if th else 2): plan.add("tga", tag + ":" + m, x, native, dims, n_variants=1 if not th else 2)
         for (m, x) in G.random_mutations(b, r, 12 if th else 4): plan.add("tga", tag + ":" + m, x, native, dims, n_variants=1 if not th else 2)
